@@ -37,6 +37,15 @@ CONTRACTS = [
     ),
 ]
 
+CONTRACTS.append(Contract(
+    MODULE, "lemma_ceil_div",
+    params={"n": T.Int, "c": T.Int},
+    requires=["c >= 1", "n >= 0"],
+    ensures=[("covers", "-(n // -c) * c >= n"), ("tight", "(-(n // -c) - 1) * c < n"),
+             ("pos", "implies(n >= 1, -(n // -c) >= 1)"), ("zero", "implies(n == 0, -(n // -c) == 0)")],
+    note="nonlinear: discharged in isolation (the caller sees // with a symbolic divisor as uninterpreted)",
+))
+
 LEMMA_FUNCS = {c.name: FuncVal(c.name, "contract", c) for c in CONTRACTS}
 
 
